@@ -29,11 +29,13 @@
 //!   {"op":"trunc","seq":n,"m0":m,"v":[..]}                   artifact cut to length m0, m0+1, ...
 //!   {"op":"extend","seq":n,"n":k,"fill":"zero"|"ff"|"tail","v":[code]}
 //!   codes: 0 = load failed (Err/None), 1 = reported invalid, 2 = accepted, logical content unchanged,
-//!          3 = accepted, logical content differs from the undamaged artifact's, 4 = panic
+//!          3 = accepted, logical content differs from the undamaged artifact's, 4 = panic,
+//!          5 = the load requested a single allocation of >= 2 GiB (see `Guard`)
 //!   {"op":"new","part":"val"} {"op":"validate","seq":n,"api":A,"data":C,"ck":[16],"res":"true"|"false"|"err"|"panic"}
 //!   {"op":"new","part":"cache",comp,kinds,hooks,keys} then per operation its fields + "seq", "res",
-//!   "obs": per layer {key: C | "none"}
-//!   content C = {"b":[bytes]} (<= 160 bytes) or {"n":len,"md5":[16 bytes]} (digest by the driver)
+//!   "obs": per layer {key: C}; "vc": the content handed to a put; "res": {"ok":1} | {"err":1} | {"none":1} |
+//!   {"some":C,"validated":bool} | {"hit":bool} | {"panic":1}
+//!   content C = {"b":[bytes]} (<= 160 bytes), {"n":len,"md5":[16 bytes]} (digest by the driver) or {"none":1}
 use bytes::Bytes;
 use cascette_cache::config::{DiskCacheConfig, MemoryCacheConfig, MultiLayerCacheConfig, PromotionStrategy};
 use cascette_cache::key::{BlteBlockKey, RibbitKey};
@@ -51,17 +53,72 @@ use cascette_crypto::{ContentKey, EncodingKey};
 use cascette_formats::archive::{ArchiveIndex, ArchiveIndexBuilder, ChunkedArchiveIndex};
 use cascette_formats::encoding::{CKeyEntryData, EKeyEntryData, EncodingBuilder, EncodingFile};
 use serde_json::{Value, json};
+use std::alloc::{GlobalAlloc, Layout, System};
 use std::io::Cursor;
+use std::sync::atomic::{AtomicUsize, Ordering::Relaxed};
 use std::path::{Path, PathBuf};
 use std::sync::Arc;
 use std::time::Duration;
 use verif_harness::*;
+
+// ---------------------------------------------------------------------------------------------------
+// A damaged length field can make a loader ask for tens of GiB (Vec::with_capacity(count)); the standard
+// library aborts the process when the system refuses.  So that one such load does not end the whole
+// enumeration, requests of 1 GiB and more are served by a lazily backed anonymous mapping (never touched
+// by a loader that fails on its short input) and *recorded*: the load is reported with code 5.
+// ---------------------------------------------------------------------------------------------------
+struct Guard;
+static LARGEST: AtomicUsize = AtomicUsize::new(0);
+const HUGE: usize = 1 << 30;
+unsafe extern "C" {
+    fn mmap(addr: *mut u8, len: usize, prot: i32, flags: i32, fd: i32, off: i64) -> *mut u8;
+    fn munmap(addr: *mut u8, len: usize) -> i32;
+}
+// SAFETY: small requests go to the system allocator unchanged; large ones are page-aligned private anonymous
+// mappings (PROT_READ|PROT_WRITE, MAP_PRIVATE|MAP_ANONYMOUS|MAP_NORESERVE), zero-filled by the kernel, released
+// with munmap of the same length.
+unsafe impl GlobalAlloc for Guard {
+    unsafe fn alloc(&self, l: Layout) -> *mut u8 {
+        if l.size() < HUGE {
+            return unsafe { System.alloc(l) };
+        }
+        LARGEST.fetch_max(l.size(), Relaxed);
+        let p = unsafe { mmap(std::ptr::null_mut(), l.size(), 3, 0x02 | 0x20 | 0x4000, -1, 0) };
+        if p as isize == -1 { std::ptr::null_mut() } else { p }
+    }
+    unsafe fn alloc_zeroed(&self, l: Layout) -> *mut u8 {
+        if l.size() < HUGE { unsafe { System.alloc_zeroed(l) } } else { unsafe { self.alloc(l) } }
+    }
+    unsafe fn dealloc(&self, p: *mut u8, l: Layout) {
+        if l.size() < HUGE {
+            unsafe { System.dealloc(p, l) }
+        } else {
+            unsafe { munmap(p, l.size()) };
+        }
+    }
+    unsafe fn realloc(&self, p: *mut u8, l: Layout, new: usize) -> *mut u8 {
+        if l.size() < HUGE && new < HUGE {
+            return unsafe { System.realloc(p, l, new) };
+        }
+        let nl = Layout::from_size_align(new, l.align()).expect("layout");
+        let q = unsafe { self.alloc(nl) };
+        if !q.is_null() {
+            unsafe { std::ptr::copy_nonoverlapping(p, q, l.size().min(new)) };
+            unsafe { self.dealloc(p, l) };
+        }
+        q
+    }
+}
+#[global_allocator]
+static ALLOC: Guard = Guard;
 
 const ERR: u8 = 0;
 const INVALID: u8 = 1;
 const SAME: u8 = 2;
 const ALTERED: u8 = 3;
 const PANIC: u8 = 4;
+/// the load asked for a single allocation of 2 GiB or more (with the default allocator: process abort when refused)
+const HUGE_ALLOC: u8 = 5;
 const LONG_TTL: Duration = Duration::from_secs(3600);
 
 fn scratch() -> PathBuf {
@@ -356,7 +413,12 @@ fn load(b: &[u8], ctx: &ArtCtx) -> Loaded {
 }
 
 fn code(b: &[u8], ctx: &ArtCtx, base: &str) -> u8 {
-    match guarded(|| load(b, ctx)) {
+    LARGEST.store(0, Relaxed);
+    let r = guarded(|| load(b, ctx));
+    if LARGEST.load(Relaxed) >= 2 * HUGE {
+        return HUGE_ALLOC;
+    }
+    match r {
         Ok(Loaded::Failed) => ERR,
         Ok(Loaded::Invalid) => INVALID,
         Ok(Loaded::Ok(d)) => {
@@ -703,7 +765,7 @@ fn exec_cache(run: &Run, op: &Value) -> Value {
                 Comp::CacDisk(c) => rt.block_on(c.put_validated(ck("ck"), val("v"))).is_ok(),
                 Comp::Ml(c) => rt.block_on(c.put_with_validation(rkey(s(op, "k")), ck("ck"), val("v"))).is_ok(),
             };
-            json!(if r { "ok" } else { "err" })
+            if r { json!({"ok": 1}) } else { json!({"err": 1}) }
         }
         // ---- validating reads
         "get_val" => {
@@ -719,8 +781,8 @@ fn exec_cache(run: &Run, op: &Value) -> Value {
             };
             match r {
                 Ok(Some((b, validated))) => json!({"some": content(&b), "validated": validated}),
-                Ok(None) => json!("none"),
-                Err(()) => json!("err"),
+                Ok(None) => json!({"none": 1}),
+                Err(()) => json!({"err": 1}),
             }
         }
         // ---- writers that do not validate (another user of the same store)
@@ -731,15 +793,15 @@ fn exec_cache(run: &Run, op: &Value) -> Value {
                 (_, Some(Inner::Disk(i))) => rt.block_on(i.put(bkey(s(op, "k")), val("v"))).is_ok(),
                 _ => unreachable!(),
             };
-            json!(if r { "ok" } else { "err" })
+            if r { json!({"ok": 1}) } else { json!({"err": 1}) }
         }
         "get" => match &run.comp {
             Comp::Ml(c) => match rt.block_on(c.get(&rkey(s(op, "k")))) {
                 Ok(Some(b)) => json!({"some": content(&b)}),
-                Ok(None) => json!("none"),
-                Err(_) => json!("err"),
+                Ok(None) => json!({"none": 1}),
+                Err(_) => json!({"err": 1}),
             },
-            _ => json!("none"),
+            _ => json!({"none": 1}),
         },
         // ---- the environment damages or deletes the backing file / entry
         "corrupt" | "delete" => {
@@ -768,7 +830,7 @@ fn exec_cache(run: &Run, op: &Value) -> Value {
                     }
                 }
             }
-            json!(if hit { "true" } else { "false" })
+            json!({"hit": hit})
         }
         other => panic!("driver: unknown op {other}"),
     }
@@ -787,7 +849,7 @@ fn observe(run: &Run) -> Value {
             };
             m.insert(k.clone(), match r {
                 Ok(Some(b)) => content(&b),
-                _ => json!("none"),
+                _ => json!({"none": 1}),
             });
         }
         layers.push(Value::Object(m));
@@ -806,17 +868,25 @@ fn step(run: &Run, op: &Value, seq: u64, out: &Emit) -> bool {
     out.begin(op);
     let mut ev = op.clone();
     ev["seq"] = json!(seq);
+    if let Some(v) = op.get("v").and_then(Value::as_str) {
+        // the content handed to the cache (bytes, or length + digest above 160 bytes)
+        ev["vc"] = match v {
+            "big1" => content(&big_value(1)),
+            "big2" => content(&big_value(2)),
+            v => content(&value_bytes(v)),
+        };
+    }
     match guarded(|| exec_cache(run, op)) {
         Ok(r) => ev["res"] = r,
         Err(m) => {
-            ev["res"] = json!("panic");
+            ev["res"] = json!({"panic": 1});
             ev["msg"] = json!(m.chars().take(160).collect::<String>());
         }
     }
     match guarded(|| observe(run)) {
         Ok(o) => ev["obs"] = o,
         Err(m) => {
-            ev["res"] = json!("panic");
+            ev["res"] = json!({"panic": 1});
             ev["msg"] = json!(format!("probe: {}", m.chars().take(140).collect::<String>()));
             ev["obs"] = json!([]);
             out.ev(ev);
